@@ -129,10 +129,26 @@ class Scheduler:
         self.steps = 0
         self.switches = 0
         self.hung = False
+        # bookkeeping for the systematic policy `pw.<a>.<d>.<b>.<k>` (pre-emption at write boundaries)
+        self.fp_fn = None           # callable: fingerprint of the shared level cache (identity and size of every level)
+        self.last_fp = None
+        self.writes = {}            # thread name -> changes of the fingerprint seen while that thread was running
+        self.released = {}          # thread name -> it has released the lock at least once
+        self.since_rel = {}         # thread name -> pre-emption points passed since its first release
+        self.ysteps = {}            # thread name -> pre-emption points passed
 
     def sample(self, me):
         """only the running thread mutates shared state, so any growth of the cache since the last look
         is the work of `me`; a lock-free reader never causes growth and is never an event of its own"""
+        if self.fp_fn is not None and me in self.names:
+            try:
+                fp = self.fp_fn()
+            except Exception:  # noqa: B902 - the class may not exist yet
+                fp = None
+            if fp is not None and fp != self.last_fp:
+                if self.last_fp is not None:
+                    self.writes[self.names[me]] = self.writes.get(self.names[me], 0) + 1
+                self.last_fp = fp
         if self.cache_len is None:
             return
         try:
@@ -146,10 +162,18 @@ class Scheduler:
     def event(self, kind, me):
         self.sample(me)
         self.events.append("%s%d" % (kind, self.names[me]))
+        if kind == "r":
+            self.released.setdefault(self.names[me], True)
+            self.since_rel.setdefault(self.names[me], 0)
 
     def yield_point(self, blocked=False):
         me = threading.get_ident()
         self.sample(me)
+        nm = self.names.get(me)
+        if nm is not None and not blocked:
+            self.ysteps[nm] = self.ysteps.get(nm, 0) + 1
+            if nm in self.since_rel:
+                self.since_rel[nm] += 1
         with self.cv:
             self.state[me] = "blocked" if blocked else "ready"
             self.current = None
@@ -174,13 +198,30 @@ class Scheduler:
 
     def tracer(self, frame, event, arg):
         if frame.f_code.co_filename.endswith("permset.py"):
-            if event == "line":
+            # pre-emption points: every line of permset.py, and every return from one of its functions (between
+            # `_get_level` handing out a level - the lock is released by then - and the caller using it)
+            if event in ("line", "return"):
                 self.yield_point()
             return self.tracer
         return None
 
     def choose(self, cand):
         cand = sorted(cand, key=lambda t: self.names[t])
+        if self.policy.startswith("pw."):
+            # systematic: thread a runs until it has released the lock and passed d further pre-emption points (it then
+            # holds whatever it was handed); thread b runs until it has performed its k-th write to the shared cache and
+            # is pre-empted right there; then a runs to its end, then everybody else
+            _, a, d, b, k = self.policy.split(".")
+            a, d, b, k = int(a), int(d), int(b), int(k)
+            byname = {self.names[t]: t for t in cand}
+            a_parked = self.released.get(a) and self.since_rel.get(a, 0) > d
+            if not a_parked and a in byname and self.state[byname[a]] == "ready":
+                return byname[a]
+            if self.writes.get(b, 0) < k and b in byname and self.state[byname[b]] == "ready":
+                return byname[b]
+            if a in byname:
+                return byname[a]
+            return cand[0]
         if self.policy == "sticky" and self.last in cand and self.rng.random() < 0.9:
             return self.last
         if self.policy == "switch" and self.last in cand:
@@ -302,15 +343,31 @@ def run_conc(basis_str, queries, seed, policy, precreate):
             return len(av0.cache) if av0 is not None else None
         sch.cache_len = cache_len
 
+        def cache_fp():
+            av0 = shared
+            if av0 is None:
+                cc = PS.Av._CLASS_CACHE
+                av0 = next(iter(cc.values())) if cc else None
+            return tuple((id(lv), len(lv)) for lv in av0.cache) if av0 is not None else None
+        sch.fp_fn = cache_fp
+
         def job(kind, arg):
             def f():
                 av = shared if shared is not None else make_class(basis_str)
                 if kind == "C":
                     return str(av.count(int(arg)))
+                def stepwise(it):
+                    # the listing is consumed item by item with a pre-emption point after each item: other threads
+                    # may build and compact levels while this one is in the middle of a level it was handed
+                    items = []
+                    for q in it:
+                        items.append(q)
+                        sch.yield_point()
+                    return items
                 if kind == "L":
-                    return c02.canon_full(av.of_length(int(arg)))
+                    return c02.canon_full(stepwise(av.of_length(int(arg))))
                 if kind == "U":
-                    return c02.canon_full(av.up_to_length(int(arg)))
+                    return c02.canon_full(stepwise(av.up_to_length(int(arg))))
                 if kind == "I":
                     return fbool(Perm(pseq(arg)) in av)
                 if kind == "P":
@@ -446,6 +503,21 @@ def run(ctx):
     specs += gen_specs(rng, n, maxlen)
     cases = list(ctx.pool.map(eval_case, specs, chunksize=4))
     ctx.compare_precomputed("scheduled-runs", cases)
+    # systematic: a reader that has just been handed level 3 (count / membership / listing, pre-empted at its first,
+    # second, ... pre-emption point after releasing the lock) against a builder pre-empted right after its k-th write
+    # to the shared cache (one write = one level appended, replaced or changed in place - the granularity of the
+    # model's `step`), for every k the builder performs; then the reader finishes with what it holds
+    wb = []
+    K = 14 if quick else 24
+    for b in (["0,2,1"] if quick else ["0,2,1", "0,1,2;3,2,1,0", "1,0/0.0,1.1"]):
+        mesh = "/" in b
+        for reader in ["C3", "I0,1,2" if not mesh else "I0,1,2", "L3", "U3"]:
+            for d in range(0, 3 if quick else 5):
+                for k in range(1, K + 1):
+                    wb.append((b, "%s;%s" % (reader, "C6" if (quick or mesh) else "C7"), 0, "pw.0.%d.1.%d" % (d, k), True))
+    wcases = list(ctx.pool.map(eval_case, wb, chunksize=4))
+    ctx.compare_precomputed("write-boundaries", wcases)
+    cases = cases + wcases
     hangs = [c for c in cases if "HANG" in c[1]]
     ctx.extra["schedules_run"] = len(cases)
     ctx.extra["policies"] = {p: sum(1 for s in specs if s[3] == p) for p in ("random", "sticky", "switch")}
